@@ -2295,9 +2295,13 @@ impl<'a, 'b, W: Write> SerializeMap for MapSer<'a, 'b, W> {
                 } else {
                     self.ser.write_indent(self.depth)?;
                 }
-                self.ser.out.write_str(":")?;
-                self.ser.pending_space_after_colon = true;
+                // The value node starts right after `: `, which is as wide as `- `: it is laid
+                // out like a sequence item after its dash (`: x: 3`, `: - 1`, `: |`), every
+                // following line of the value indented under the `: `.
+                self.ser.out.write_str(": ")?;
+                self.ser.pending_space_after_colon = false;
                 self.ser.pending_inline_map = true;
+                self.ser.after_dash_depth = Some(self.depth);
                 self.ser.at_line_start = false;
                 self.ser.depth = self.depth;
             }
